@@ -3,5 +3,5 @@ CONSTANTS
   N = 2
   MaxLen = 4
   Minimise = TRUE
-INVARIANTS ResultIsMUS ErrorIffSat EmitF
+INVARIANTS ResultIsMUS ErrorIffSat Lemma EmitF
 CHECK_DEADLOCK FALSE
